@@ -61,6 +61,51 @@ Proof.
   destruct (oid_eqb i x) eqn:E; [|exact IH]. apply oid_eqb_eq in E; subst i. rewrite Hf in F. discriminate.
 Qed.
 
+(* pass B: a member is added only when its NUMBER is not present yet *)
+Lemma has_number_insert m id o n :
+  has_number (insert m id o) n = has_number m n || (fst id =? n)%N.
+Proof.
+  unfold has_number. induction m as [|[i o'] m IH]; cbn [insert existsb fst].
+  - destruct (fst id =? n)%N; reflexivity.
+  - destruct (oid_eqb i id) eqn:E.
+    + clear IH. apply oid_eqb_eq in E. subst i. cbn [existsb fst].
+      match goal with |- context [existsb ?f m] => generalize (existsb f m) end. intro r. destruct (fst id =? n)%N, r; reflexivity.
+    + destruct (oid_ltb id i); cbn [existsb fst].
+      * clear IH. match goal with |- context [existsb ?f m] => generalize (existsb f m) end. intro r.
+        destruct (fst id =? n)%N, (fst i =? n)%N, r; reflexivity.
+      * rewrite IH. match goal with |- context [existsb ?f m] => generalize (existsb f m) end. intro r.
+        destruct (fst id =? n)%N, (fst i =? n)%N, r; reflexivity.
+Qed.
+
+Lemma lookup_has_number m n g v : lookup m (n, g) = Some v -> has_number m n = true.
+Proof.
+  unfold has_number. induction m as [|[i o] m IH]; cbn [lookup existsb fst]; [discriminate|].
+  destruct (oid_eqb i (n, g)) eqn:E.
+  - apply oid_eqb_eq in E. subst i. cbn [fst]. rewrite N.eqb_refl. reflexivity.
+  - intro H. rewrite (IH H). apply orb_true_r.
+Qed.
+
+Lemma add_new_numbers_keep l : forall m x v, lookup m x = Some v -> lookup (add_new_numbers m l) x = Some v.
+Proof.
+  unfold add_new_numbers. induction l as [|[i o] l IH]; intros m x v Hm; cbn [fold_left fst snd]; [exact Hm|].
+  apply IH. unfold add_new_number. destruct (has_number m (fst i)) eqn:Hn; [exact Hm|].
+  rewrite lookup_insert. destruct (oid_eqb i x) eqn:E; [|exact Hm].
+  apply oid_eqb_eq in E. subst x. destruct i as [n g]. cbn [fst] in Hn. rewrite (lookup_has_number m n g v Hm) in Hn. discriminate.
+Qed.
+
+(* no second generation: once an object of number n is present, pass B changes nothing under that number *)
+Lemma add_new_numbers_number l : forall m n, has_number m n = true ->
+  has_number (add_new_numbers m l) n = true /\ forall g, lookup (add_new_numbers m l) (n, g) = lookup m (n, g).
+Proof.
+  unfold add_new_numbers. induction l as [|[i o] l IH]; intros m n Hn; cbn [fold_left fst snd]; [split; [exact Hn | reflexivity]|].
+  unfold add_new_number at 2 4. destruct (has_number m (fst i)) eqn:Hi; [apply IH; exact Hn|].
+  assert (Hne : (fst i =? n)%N = false).
+  { destruct (fst i =? n)%N eqn:E; [|reflexivity]. apply N.eqb_eq in E. rewrite E in Hi. congruence. }
+  destruct (IH (insert m i o) n) as [K1 K2]; [rewrite has_number_insert, Hn; reflexivity|].
+  split; [exact K1|]. intro g. rewrite K2, lookup_insert.
+  replace (oid_eqb i (n, g)) with false; [reflexivity|]. symmetry. unfold oid_eqb. cbn [fst snd]. rewrite Hne. reflexivity.
+Qed.
+
 (* ---------- the two results of the first phase ---------- *)
 Definition phase1 (L : layout) (enc : bool) (t : xmap) := fold_left (load_entry L enc) t ([], []).
 Definition normals (L : layout) (enc : bool) (t : xmap) : objmap := fst (phase1 L enc t).
@@ -125,6 +170,21 @@ Proof.
   - intros kv' p Hin. apply Hno. right. exact Hin.
 Qed.
 
+Lemma passB_keep (f : N -> oid * obj -> bool) : forall bl m x v, lookup m x = Some v ->
+  lookup (fold_left (fun m b => add_new_numbers m (filter (f (fst b)) (snd b))) bl m) x = Some v.
+Proof.
+  induction bl as [|b bl IH]; intros m x v Hm; cbn [fold_left]; [exact Hm|].
+  apply IH. apply add_new_numbers_keep. exact Hm.
+Qed.
+
+Lemma passB_number (f : N -> oid * obj -> bool) : forall bl m n, has_number m n = true ->
+  forall g, lookup (fold_left (fun m b => add_new_numbers m (filter (f (fst b)) (snd b))) bl m) (n, g) = lookup m (n, g).
+Proof.
+  induction bl as [|b bl IH]; intros m n Hn g; cbn [fold_left]; [reflexivity|].
+  destruct (add_new_numbers_number (filter (f (fst b)) (snd b)) m n Hn) as [K1 K2].
+  rewrite (IH _ n K1 g). apply K2.
+Qed.
+
 Theorem load_normal_wins : forall L enc t l1 kv l2 p,
   t = l1 ++ kv :: l2 ->
   entry_object L enc kv = Some p ->
@@ -145,7 +205,7 @@ Proof.
             lookup (fold_left (fun m b => or_insert_all m (filter (f (fst b)) (snd b))) bl m) x = Some v).
   { induction bl as [|b bl IH]; intros m x v Hm; cbn [fold_left]; [exact Hm|].
     apply IH. rewrite lookup_or_insert_all, Hm. reflexivity. }
-  apply (Keep (fun k io => negb (named_by (l1 ++ kv :: l2) k io))).
+  apply (passB_keep (fun k io => negb (named_by (l1 ++ kv :: l2) k io))).
   apply (Keep (fun k io => named_by (l1 ++ kv :: l2) k io)). exact H1.
 Qed.
 
@@ -190,11 +250,23 @@ Proof.
   change (fst (phase1 L enc t)) with (normals L enc t).
   change (snd (phase1 L enc t)) with (blocks L enc t).
   pose proof (passA_named t (blocks L enc t) (normals L enc t) x c i o b1 ms b2 Hn Hx Hbl Hb1 Hms) as HA.
-  assert (Keep : forall bl m v, lookup m x = Some v ->
-            lookup (fold_left (fun m b => or_insert_all m (filter (fun io => negb (named_by t (fst b) io)) (snd b))) bl m) x = Some v).
-  { induction bl as [|b bl IH]; intros m0 v Hm0; cbn [fold_left]; [exact Hm0|].
-    apply IH. rewrite lookup_or_insert_all, Hm0. reflexivity. }
-  apply Keep. exact HA.
+  apply (passB_keep (fun k io => negb (named_by t k io))). exact HA.
+Qed.
+
+(* the objects after pass A: read through Normal entries, plus the members the table places in their container *)
+Definition after_named (L : layout) (enc : bool) (t : xmap) : objmap :=
+  fold_left (fun m b => or_insert_all m (filter (named_by t (fst b)) (snd b))) (blocks L enc t) (normals L enc t).
+
+(* one generation per object number (commit "fix: ... generation ..."): when the table gives an object of number n --
+   plainly or in the object stream it names --, no other generation of n is taken from any object stream *)
+Theorem load_one_generation : forall L enc t n g o,
+  lookup (after_named L enc t) (n, g) = Some o ->
+  forall g', lookup (load_objects L enc t) (n, g') = lookup (after_named L enc t) (n, g').
+Proof.
+  intros L enc t n g o H g'. unfold load_objects. fold (phase1 L enc t).
+  change (fst (phase1 L enc t)) with (normals L enc t).
+  change (snd (phase1 L enc t)) with (blocks L enc t). fold (after_named L enc t).
+  apply (passB_number (fun k io => negb (named_by t k io))). eapply lookup_has_number. exact H.
 Qed.
 
 (* the blocks are those of the table entries, in table order, keyed by the entry's object number *)
